@@ -301,4 +301,44 @@ def strictUnmarshal {M} (c : Codec M) (data : Bytes) : StrictResult M :=
   | none => .malformed
   | some (m, unk) => if unk.isEmpty then .ok m else .unknownFields
 
+/-! ## sequences of codec calls
+
+Every `Marshal` / `MarshalStable` / `MarshalAppend` call of `internal/codec.go` returns a
+buffer of its own (`proto.Marshal`, `protojson.Marshal`, `json.Compact` into a local
+`bytes.Buffer`, `append` to the caller's `dst`) and `Unmarshal` keeps nothing of its
+argument.  The heap of results is the list of buffers returned so far: a call appends to that
+list and never writes into it. -/
+
+inductive Call (M : Type) where
+  /-- `Marshal`, `MarshalStable` or `MarshalAppend` of a message -/
+  | encode (m : M)
+  /-- `Unmarshal` of the buffer returned by the `i`-th call of the sequence -/
+  | decode (i : Nat)
+
+structure CallState (M : Type) where
+  /-- what the `i`-th call returned as bytes (`none`: it failed, or it was a decode call) -/
+  bufs : List (Option Bytes) := []
+  /-- what the `i`-th call returned as a message (`none`: not a decode call / nothing to decode) -/
+  msgs : List (Option (StrictResult M)) := []
+
+def callStep {M} (c : Codec M) (st : CallState M) : Call M → CallState M
+  | .encode m => { bufs := st.bufs ++ [strictMarshal c m], msgs := st.msgs ++ [none] }
+  | .decode i => { bufs := st.bufs ++ [none], msgs := st.msgs ++ [(st.bufs[i]?.join).map (strictUnmarshal c)] }
+
+def runCalls {M} (c : Codec M) : List (Call M) → CallState M → CallState M
+  | [], st => st
+  | call :: rest, st => runCalls c rest (callStep c st call)
+
+/-- what the code would be with a pooled scratch buffer whose bytes are handed out (the
+counter-model used by the witness theorem): every encode call overwrites the one buffer all
+earlier results point into -/
+def callStepPooled {M} (c : Codec M) (st : CallState M) : Call M → CallState M
+  | .encode m => { bufs := st.bufs.map (fun b => b.bind fun _ => strictMarshal c m) ++ [strictMarshal c m],
+                   msgs := st.msgs ++ [none] }
+  | .decode i => { bufs := st.bufs ++ [none], msgs := st.msgs ++ [(st.bufs[i]?.join).map (strictUnmarshal c)] }
+
+def runCallsPooled {M} (c : Codec M) : List (Call M) → CallState M → CallState M
+  | [], st => st
+  | call :: rest, st => runCallsPooled c rest (callStepPooled c st call)
+
 end ConfModel.Convert
